@@ -74,6 +74,11 @@ func (p Prefix) FilePrefix() (path, remaining string, ok bool) {
 // To check whether the key belongs in Contents or CommonPrefixes, compare the
 // result to key.
 func (p Prefix) Match(key string, match *PrefixMatch) (ok bool) {
+	if p.Delimiter == "" {
+		// A delimiter that is there but empty (NewPrefix(..., &"")) groups
+		// nothing; strings.Split by "" below would not even leave a first part.
+		p.HasDelimiter = false
+	}
 	if !p.HasPrefix && !p.HasDelimiter {
 		// If there is no prefix in the search, the match is the prefix:
 		if match != nil {
